@@ -1,7 +1,9 @@
 (* C09 -- quantised multipliers reproduce the real scale to reference precision.  Statements only.
    A float (binary32/binary64, Python float or NumPy scalar) is the exact dyadic  m * 2^e  (Dy m e).
-   L = Z.log2 m; math.frexp's exponent is E = e + L + 1 (2^(E-1) <= scale < 2^E); Vela's shift is
-   s = 31 - E.  The hardware range is 0 <= s <= 63, i.e. 2^-33 <= scale < 2^31. *)
+   L = Z.log2 m; math.frexp's exponent is E = e + L + 1 (2^(E-1) <= scale < 2^E).  rnd m = 1 when the
+   significand rounds up to 2^31 (m >= 2^(L+1) * (1 - 2^-32)) and quantise_scale renormalises it to 2^30
+   as the reference does, else 0.  Vela's shift is  vshift m e = 31 - E - rnd m.  The hardware range is
+   0 <= vshift m e <= 63, i.e. 2^-33 * (1 - 2^-32) <= scale < 2^31 * (1 - 2^-32). *)
 From Coq Require Import ZArith List Bool QArith Qabs.
 From VV Require Import lib.PyInt lib.PyFloat gen.GenScaling model.Scaling
   proofs.ScalingProofs proofs.ScalingPoolProofs proofs.ScalingFloatProofs.
@@ -17,87 +19,112 @@ Theorem gen_quantise_pooling_scale_is_model : forall n rb, GenScaling.quantise_p
 Proof. exact gen_quantise_pooling_scale_eq. Qed.
 
 (* ---- quantise_scale ---- *)
-(* In range: multiplier in [2^30, 2^31], shift in [0, 63].  The pair denotes q * 2^-s and the
-   scale is m * 2^e; multiplied by 2^(s+L+1) these are q * 2^(L+1) and m * 2^31, so
-   |q * 2^(L+1) - m * 2^31| <= 2^L <= m  is exactly  |q * 2^-s - scale| <= 2^-31 * scale. *)
+Theorem vshift_def : forall m e, vshift m e = 31 - (e + Z.log2 m + 1) - rnd m.
+Proof. reflexivity. Qed.
+Theorem rnd_def : forall m, rnd m = if qpos m =? 2 ^ 31 then 1 else 0.
+Proof. reflexivity. Qed.
+
+(* In range: multiplier in [2^30, 2^31] (indeed < 2^31), shift in [0, 63].  The pair denotes q * 2^-s and
+   the scale is m * 2^e; multiplied by 2^(s+rnd+L+1) these are q * 2^(L+1+rnd) and m * 2^31, so
+   |q * 2^(L+1+rnd) - m * 2^31| <= 2^L <= m  is exactly  |q * 2^-s - scale| <= 2^-31 * scale. *)
 Theorem quantise_scale_accurate :
   forall m e, 0 < m ->
-    let L := Z.log2 m in let s := 31 - (e + L + 1) in
+    let L := Z.log2 m in let s := vshift m e in
     0 <= s <= 63 ->
     exists q, GenScaling.quantise_scale (Dy m e) = (q, s) /\
-              2 ^ 30 <= q <= 2 ^ 31 /\
-              Z.abs (q * 2 ^ (L + 1) - m * 2 ^ 31) <= 2 ^ L /\ 2 ^ L <= m.
+              2 ^ 30 <= q <= 2 ^ 31 /\ q < 2 ^ 31 /\
+              Z.abs (q * 2 ^ (L + 1 + rnd m) - m * 2 ^ 31) <= 2 ^ L /\ 2 ^ L <= m.
 Proof. exact quantise_scale_accurate_lemma. Qed.
 
 (* the same statement over the rationals *)
 Theorem quantise_scale_accurate_Q :
   forall m e, 0 < m ->
-    let s := 31 - (e + Z.log2 m + 1) in
+    let s := vshift m e in
     0 <= s <= 63 ->
     exists q, GenScaling.quantise_scale (Dy m e) = (q, s) /\
               (Qabs.Qabs (pair_Q q s - dy_Q (Dy m e)) <= QArith_base.Qpower 2 (-31) * dy_Q (Dy m e))%Q.
 Proof. exact quantise_scale_accurate_Q_lemma. Qed.
 
+(* Out of range the multiplier is zero.  This includes the scales just below 2^31 whose significand rounds
+   up (vshift = -1); the scales just below 2^-33 whose significand rounds up are in range (vshift = 63):
+   Example quantise_scale_ex_degrade. *)
 Theorem quantise_scale_degrades :
   forall m e, 0 < m ->
-    let s := 31 - (e + Z.log2 m + 1) in
-    ~ (0 <= s <= 63) -> GenScaling.quantise_scale (Dy m e) = (0, 16).
+    ~ (0 <= vshift m e <= 63) -> GenScaling.quantise_scale (Dy m e) = (0, 16).
 Proof. exact quantise_scale_degrades_lemma. Qed.
 
 (* nothing wraps: for every positive input the pair fits the 32-bit scale / 6-bit shift fields *)
 Theorem quantise_scale_fits :
   forall m e, 0 < m ->
-    0 <= fst (GenScaling.quantise_scale (Dy m e)) <= 2 ^ 31 /\
+    0 <= fst (GenScaling.quantise_scale (Dy m e)) < 2 ^ 31 /\
     0 <= snd (GenScaling.quantise_scale (Dy m e)) <= 63.
 Proof. exact quantise_scale_fits_lemma. Qed.
 
-(* Reference equality, Vela shift in [0, 62]: the pairs are equal up to the reference's
-   renormalisation of q = 2^31, and denote the same rational  qv * 2^-s = qt * 2^(st-31). *)
+(* Reference equality, shift in [0, 62]: the SAME pair as QuantizeMultiplier, whose left shift is 31 - s *)
 Theorem quantise_scale_eq_tflite :
   forall m e, 0 < m ->
-    let s := 31 - (e + Z.log2 m + 1) in
+    let s := vshift m e in
     0 <= s <= 62 ->
-    exists qv qt st,
-      GenScaling.quantise_scale (Dy m e) = (qv, s) /\ tfl_quantize_multiplier (Dy m e) = (qt, st) /\
-      ((qt = qv /\ st = 31 - s) \/ (qv = 2 ^ 31 /\ qt = 2 ^ 30 /\ st = 32 - s)) /\
-      qv * 2 ^ 31 = qt * 2 ^ (st + s).
+    exists q,
+      GenScaling.quantise_scale (Dy m e) = (q, s) /\ tfl_quantize_multiplier (Dy m e) = (q, 31 - s) /\
+      2 ^ 30 <= q < 2 ^ 31.
 Proof. exact quantise_scale_eq_tflite_lemma. Qed.
 
-(* At shift 63 (2^-33 <= scale < 2^-32) the reference flushes to zero (unless the significand
-   rounds up to 2^31) while Vela keeps the accurate pair: the two clauses of the property cannot
-   both hold there; Vela satisfies the accuracy clause.  Stated, not hidden. *)
+(* the form other properties compose with (C01), driven by the result of the code: a non-zero
+   multiplier (the pair is not the degraded (0, 16)) with shift <= 62 is the reference's pair *)
+Theorem quantise_scale_is_tflite :
+  forall m e q s, 0 < m ->
+    GenScaling.quantise_scale (Dy m e) = (q, s) -> q <> 0 -> 0 <= s <= 62 ->
+    tfl_quantize_multiplier (Dy m e) = (q, 31 - s) /\ 2 ^ 30 <= q < 2 ^ 31.
+Proof. exact quantise_scale_is_tflite_lemma. Qed.
+
+(* ... and driven by the input: 2^-31 <= scale < 2^30 (un-renormalised shift in [1, 62]) *)
+Theorem quantise_scale_is_tflite_in_range :
+  forall m e, 0 < m ->
+    let s0 := 31 - (e + Z.log2 m + 1) in
+    1 <= s0 <= 62 ->
+    exists q s, GenScaling.quantise_scale (Dy m e) = (q, s) /\ s0 - 1 <= s <= s0 /\
+                tfl_quantize_multiplier (Dy m e) = (q, 31 - s) /\ 2 ^ 30 <= q < 2 ^ 31.
+Proof. exact quantise_scale_is_tflite_in_range_lemma. Qed.
+
+(* the degraded pair is recognised by its zero multiplier *)
+Theorem quantise_scale_nonzero :
+  forall m e q s, 0 < m -> GenScaling.quantise_scale (Dy m e) = (q, s) -> q <> 0 ->
+    s = vshift m e /\ q = qn m /\ 0 <= s <= 63.
+Proof. exact quantise_scale_nonzero_lemma. Qed.
+
+(* At shift 63 the reference flushes to zero while Vela keeps the accurate pair: the two clauses of the
+   property cannot both hold there; Vela satisfies the accuracy clause.  Stated, not hidden. *)
 Theorem quantise_scale_tflite_shift63 :
-  forall m e, 0 < m -> 31 - (e + Z.log2 m + 1) = 63 ->
-    GenScaling.quantise_scale (Dy m e) = (qpos m, 63) /\ 2 ^ 30 <= qpos m <= 2 ^ 31 /\
-    (qpos m < 2 ^ 31 -> tfl_quantize_multiplier (Dy m e) = (0, 0)) /\
-    (qpos m = 2 ^ 31 -> tfl_quantize_multiplier (Dy m e) = (2 ^ 30, -31)).
+  forall m e, 0 < m -> vshift m e = 63 ->
+    GenScaling.quantise_scale (Dy m e) = (qn m, 63) /\ 2 ^ 30 <= qn m < 2 ^ 31 /\
+    tfl_quantize_multiplier (Dy m e) = (0, 0).
 Proof. exact quantise_scale_tflite_shift63_lemma. Qed.
 
 (* ---- reduced_quantise_scale ---- *)
-(* The pair (rm, s - 16) denotes rm * 2^-(s-16); scaled by 2^(s+L+1): rm * 2^(L+17) against m * 2^31.
+(* The pair (rm, s - 16) denotes rm * 2^-(s-16); scaled by 2^(s+rnd+L+1): rm * 2^(L+17+rnd) against m * 2^31.
    True bound 2^-15 + 2^-31 (first inequality), hence the 2^-14 of the property text. *)
 Theorem reduced_quantise_scale_accurate :
   forall m e, 0 < m ->
-    let L := Z.log2 m in let s := 31 - (e + L + 1) in
+    let L := Z.log2 m in let s := vshift m e in
     0 <= s <= 63 ->
     exists rm, GenScaling.reduced_quantise_scale (Dy m e) = (rm, s - 16) /\
                2 ^ 14 <= rm <= 32767 /\
-               Z.abs (rm * 2 ^ (L + 17) - m * 2 ^ 31) * 2 ^ 31 <= (2 ^ 16 + 1) * (m * 2 ^ 31) /\
-               Z.abs (rm * 2 ^ (L + 17) - m * 2 ^ 31) * 2 ^ 14 <= m * 2 ^ 31.
+               Z.abs (rm * 2 ^ (L + 17 + rnd m) - m * 2 ^ 31) * 2 ^ 31 <= (2 ^ 16 + 1) * (m * 2 ^ 31) /\
+               Z.abs (rm * 2 ^ (L + 17 + rnd m) - m * 2 ^ 31) * 2 ^ 14 <= m * 2 ^ 31.
 Proof. exact reduced_quantise_scale_accurate_lemma. Qed.
 
 Theorem reduced_quantise_scale_degrades :
   forall m e, 0 < m ->
-    let s := 31 - (e + Z.log2 m + 1) in
-    ~ (0 <= s <= 63) -> GenScaling.reduced_quantise_scale (Dy m e) = (0, 0).
+    ~ (0 <= vshift m e <= 63) -> GenScaling.reduced_quantise_scale (Dy m e) = (0, 0).
 Proof. exact reduced_quantise_scale_degrades_lemma. Qed.
 
-(* what is guaranteed about the reduced shift: in [-16, 47]; non-negative iff scale < 2^15 *)
+(* what is guaranteed about the reduced shift: in [-16, 47]; non-negative iff Vela's shift >= 16 (scale < 2^15) *)
 Theorem reduced_quantise_scale_shift :
   forall m e, 0 < m ->
     -16 <= snd (GenScaling.reduced_quantise_scale (Dy m e)) <= 47 /\
-    (0 <= 31 - (e + Z.log2 m + 1) <= 63 ->
-     (0 <= snd (GenScaling.reduced_quantise_scale (Dy m e)) <-> e + Z.log2 m + 1 <= 15)).
+    (0 <= vshift m e <= 63 ->
+     (0 <= snd (GenScaling.reduced_quantise_scale (Dy m e)) <-> 16 <= vshift m e)).
 Proof. exact reduced_quantise_scale_shift_lemma. Qed.
 
 (* ---- quantise_pooling_scale ---- *)
@@ -184,11 +211,15 @@ Theorem pooling_scale_headroom :
 Proof. exact pooling_scale_headroom_lemma. Qed.
 
 (* ---- elementwise mul / add / sub ---- *)
+Theorem same_value_def : forall v t ls, same_value v t ls <-> fst v = fst t /\ snd t = 31 - snd v - ls.
+Proof. intros; reflexivity. Qed.
+
 (* PARTIAL: the float expressions of scaling.py are modelled by round-to-nearest-even dyadic
    arithmetic with p-bit significands and unbounded exponents (no overflow/underflow/subnormal
    results), one precision for the whole expression; the model is tied to the Python functions by
    correspondence only (they are not translated).  same_value v t ls: Vela's pair v = (q, s),
-   denoting q * 2^-s, equals the reference pair t = (q', s'), denoting q' * 2^(s'-31), times 2^ls.
+   denoting q * 2^-s, has the multiplier of the reference pair t = (q', s') (denoting q' * 2^(s'-31)) and
+   s' = 31 - s - ls, i.e. the same value times 2^ls (unfolded in same_value_def below).
    Evaluated in binary64 (p = 53: Python float / np.float64 operands), advanced add/sub scaling gives
    the operand with the smaller scale the reference's (add.cc / sub.cc Prepare) input multiplier with
    the left shift folded into the shift, and the reference's output multiplier, wherever Vela's pair
@@ -226,6 +257,8 @@ Print Assumptions quantise_scale_accurate.
 Print Assumptions quantise_scale_accurate_Q.
 Print Assumptions quantise_scale_degrades.
 Print Assumptions quantise_scale_eq_tflite.
+Print Assumptions quantise_scale_is_tflite.
+Print Assumptions quantise_scale_is_tflite_in_range.
 Print Assumptions quantise_scale_tflite_shift63.
 Print Assumptions reduced_quantise_scale_accurate.
 Print Assumptions pooling_scale_exact.
